@@ -48,6 +48,12 @@ def jobs(tier):
                 # more source reads per packet (deeper fragmentation), fewer yields
                 out.append({"name": f"arb-{kind}-{rmode}-R7", "h": "arbitrary", "params": {"kind": kind, "NP": 1, "R": 7, "rmode": rmode},
                             "must_reach": ["stop/0", "stop/1"], "split": 4, "chunk": 20, "max_paths": 400000})
+    # a record prefix of SYMBOLIC length up to 32 MiB: the cursor can pass the 20 MB buffer-trim mark while packets are still being framed
+    out.append({"name": "arb-file-sym-prefix-sym", "h": "arbitrary", "params": {"kind": "file", "NP": 1, "R": R, "rmode": "sym", "k": "sym"},
+                "must_reach": ["stop/0", "stop/1"], "split": 4, "chunk": 20, "max_paths": 400000})
+    if not q:
+        out.append({"name": "arb-socket-sym-prefix-sym", "h": "arbitrary", "params": {"kind": "socket", "NP": 1, "R": R, "rmode": "sym", "k": "sym"},
+                    "must_reach": ["stop/0", "stop/1"], "split": 4, "chunk": 20, "max_paths": 400000})
     out.append({"name": "arb-file-sym-prefix3", "h": "arbitrary", "params": {"kind": "file", "NP": 1 if q else 2, "R": R, "rmode": "sym", "k": 3},
                 "must_reach": ["stop/0", "stop/1"], "split": 4, "chunk": 20})
     from checks import induct
